@@ -187,6 +187,50 @@ def crash_in_preprocessing(ck, rb, drv, rng, fails, mism, judge=None, verdict=b"
         T2 = base.check_history(ck, drv, W, R, "crash inside todo_do at call %d" % k, [], mism, extra=dict(killat=k))
         if judge: judge(W, R, T2, k)
 
+def bounce_chain(ck, rb, drv, rng, fails, mism):
+    """every delivery fails: message -> bounce -> double bounce -> discarded triple bounce; every number must end in S1"""
+    for sender in (b"s@x.example", b"", b"#@[]"):
+        W = qc.World(rb, "chain"); R = qc.Runner(W, {}, default=b"D"); R.start(); R.service(0.3)
+        R.inject(sender, [b"f1@local.example", b"f2@remote.example"])
+        bad = None
+        for r in range(16):
+            R.service(0.12)
+            b = undocumented(W.home)
+            if b and not bad: bad = b
+            if r % 3 == 2:
+                try: W.alarm()
+                except ProcessLookupError: pass
+            if R.queue_empty() and not W.d.pending(): break
+        R.kill()
+        left = undocumented(W.home)
+        ck.evaluated(); ck.nontrivial(("chain", sender)); ck.count("bounce_chains")
+        if bad or left:
+            fails.append(("queue:undocumented-state", dict(kind="history", scenario="every delivery fails permanently, envelope sender %r: bounce chain to the discarded triple bounce" % sender.decode(),
+                                                           history=R.history[-40:], listing=(bad or left)[:5]), 1))
+        base.check_history(ck, drv, W, R, "bounce chain from sender %r" % sender.decode(), [], mism)
+
+def cleaner_fault(ck, rb, drv, rng, fails, mism):
+    """qmail-clean's unlink of intd/n fails (EIO): it must not go on to remove mess/n or todo/n"""
+    W = qc.World(rb, "cfault", extra_env={"SYSSHIM_FAIL": "unlink:intd/:5"})
+    # a leftover S3 message, 37 hours old, and a complete new message
+    W.inject(rcpts=[b"x@local.example"], env=dict(W.env, SYSSHIM_KILLAT="8", SYSSHIM_FAIL=""))
+    L0 = qc.listing(W.home)
+    for n in L0:
+        t = time.time() - 37 * 3600; os.utime(qc.qpath(W.home, "mess", n), (t, t)); W.mark("aged %d" % n)
+    W.inject(rcpts=[b"y@local.example"], env=dict(W.env, SYSSHIM_FAIL=""))
+    R = qc.Runner(W, {}, default=b"Z"); R.start()
+    bad = None
+    for _ in range(10):
+        R.service(0.12)
+        b = undocumented(W.home)
+        if b and not bad: bad = b
+    R.kill()
+    ck.evaluated(); ck.nontrivial("cleaner-fault"); ck.count("cleaner_fault")
+    if bad:
+        fails.append(("queue:undocumented-state", dict(kind="history", scenario="unlink(intd/n) fails with EIO inside qmail-clean (an aged S3 leftover and a new message)", before={str(n): sorted(f) for n, f in L0.items()}, listing=bad[:5]), 2))
+    R.history = ["unlink intd/ fails in qmail-clean"]
+    base.check_history(ck, drv, W, R, "cleaner unlink fault", [], [])
+
 def second_daemon(ck, rb, fails):
     W = qc.World(rb, "second")
     W.inject(rcpts=[b"keep@local.example"])
@@ -223,6 +267,8 @@ def main():
         if fails: break
     crash_in_preprocessing(ck, rb, drv, rng, fails, mism)
     aging(ck, rb, drv, rng, fails, mism)
+    bounce_chain(ck, rb, drv, rng, fails, mism)
+    cleaner_fault(ck, rb, drv, rng, fails, mism)
     second_daemon(ck, rb, fails)
     base.finish(ck, fails, mism, "queue")
 
